@@ -27,6 +27,15 @@ theorem encode_injective (a b : List Bytes) (hl : a.length = b.length) :
     exact encodeWith_good_injective esc sep key_shape.2.2 a b hl h
   · intro h; rw [h]
 
+/-- stronger form: the key determines the tuple, whatever the arities -/
+theorem encode_injective_any (a b : List Bytes) : encode a = encode b ↔ a = b := by
+  constructor
+  · intro h
+    unfold encode at h
+    rw [key_shape.1, key_shape.2.1] at h
+    exact encodeWith_good_injective_any esc sep key_shape.2.2 a b h
+  · intro h; rw [h]
+
 /-- non-vacuity: tuples built from the separator and the escape byte are told apart -/
 example : encode [[120, 92], [121, 45, 122]] ≠ encode [[120, 45, 121, 92], [122]] := by decide
 
